@@ -235,6 +235,23 @@ CLAIMED = {
         "comparing f(*a, **k) with Tag(name, *a, **k) on random argument lists.",
    tech="Coq proof by computation over translator-regenerated tables, lifted with forallb_forall; exhaustive differential check",
    ref="6 C19"),
+ "C20": dict(
+   text="Machine-checked theorems over a statement-level model of JSXTag construction, the attrs-and-children walk, "
+        "_render_react_js/_serialize_attr/_serialize_style_attr and the script wrapper: the walked copy is the component "
+        "with every tagifiable replaced by its expansion; the collected metadata is exactly the pre-order list over "
+        "children, nested tags/components, tag- or component-valued props and expansions; the generated expression "
+        "equals the print of a small JavaScript AST mirroring the component (each prop once under its normalised name "
+        "in order, each child once in order, scalars/lists/dicts/jsx() as the corresponding literals) as an equality "
+        "of strings; quoted strings without backslash/CR/LF read back as the original; the result is one script tag "
+        "with the two attributes, one HTML child, react, react-dom (files exist, decided over the regenerated tables), "
+        "then the metadata; construction fails iff the name is not capitalised or a raw keyword is outside a non-empty "
+        "allow-list. Purity (component and everything reachable unchanged, any number of conversions) is decided on "
+        "the implementation by whole-graph snapshots. Tied by differential execution on random component trees.",
+   note=TB + "PARTIAL: object identity is not in the C20 model; purity is carried by the snapshot oracle (and, for tags, by the "
+        "C08 heap theorems). Two defects were repaired in /repo (fix: f477f0e, 42b965b); two open known findings "
+        "(non-finite floats, unescaped dict keys) are listed in known_findings.json.",
+   tech="Coq proof (mutual induction over component trees; printer/AST mirror as string equality) + translator tables + differential correspondence + snapshot purity oracle",
+   ref="6 C20"),
 }
 
 ALL = ["C%02d" % i for i in range(1, 21)]
